@@ -67,7 +67,7 @@ def cases(tier, seed, phase):
     for j in range(n):
         def mk(j=j):
             rng = rng_for(seed, 'c04', j)
-            return {'ops': gen_history(rng), 'concurrent': j % 3 == 2}
+            return {'ops': gen_history(rng), 'concurrent': j % 3 == 2, 'default_tmp': j % 4 == 3}
         yield mk
 
 
@@ -102,7 +102,7 @@ class Tracer(object):
 def install(tr):
     import slimta.diskstorage as ds
     real_os = ds.os
-    saved = {'os': ds.os, 'mkstemp': ds.mkstemp, 'wp': ds.AioFile._write_piece, 'chunk': ds.AioFile.chunk_size}
+    saved = {'os': ds.os, 'mkstemp': getattr(ds, 'mkstemp', None), 'wp': ds.AioFile._write_piece, 'chunk': ds.AioFile.chunk_size}
 
     class OsProxy(object):
         def __getattr__(self, name):
@@ -140,7 +140,8 @@ def install(tr):
         return r
 
     ds.os = OsProxy()
-    ds.mkstemp = mkstemp
+    if saved['mkstemp'] is not None:        # (a rewrite may have stopped using it: its file creations are then seen through os.open)
+        ds.mkstemp = mkstemp
     ds.AioFile._write_piece = wp
     ds.AioFile.chunk_size = 80
     return saved
@@ -149,7 +150,8 @@ def install(tr):
 def uninstall(saved):
     import slimta.diskstorage as ds
     ds.os = saved['os']
-    ds.mkstemp = saved['mkstemp']
+    if saved['mkstemp'] is not None:
+        ds.mkstemp = saved['mkstemp']
     ds.AioFile._write_piece = saved['wp']
     ds.AioFile.chunk_size = saved['chunk']
 
@@ -161,7 +163,7 @@ def make_env(k, nr):
     return env
 
 
-def reopen(files):
+def reopen(files, default_tmp=False):
     """A fresh DiskStorage over a copy of the snapshot: what load()/get() give. Returns (listing, problems)."""
     from slimta.diskstorage import DiskStorage
     root = tempfile.mkdtemp(prefix='verif_c04r_')
@@ -171,7 +173,7 @@ def reopen(files):
         for rel, data in files.items():
             with open(os.path.join(root, rel), 'wb') as f:
                 f.write(data)
-        st = DiskStorage(os.path.join(root, 'env'), os.path.join(root, 'meta'), os.path.join(root, 'tmp'))
+        st = DiskStorage(os.path.join(root, 'env'), os.path.join(root, 'meta'), None if default_tmp else os.path.join(root, 'tmp'))
         out = {}
         problems = []
         try:
@@ -370,8 +372,14 @@ def run_case(case, model):
     ids = {}
     chunks = {}
     errors = []
+    saved_tempdir = tempfile.tempdir
     try:
-        st = DiskStorage(os.path.join(root, 'env'), os.path.join(root, 'meta'), os.path.join(root, 'tmp'))
+        # every fourth history runs with tmp_dir left at its default (the scratch files are made wherever mkstemp puts them: the
+        # system's temporary directory, pointed to a directory of this case so that nothing is left behind)
+        if case.get('default_tmp'):
+            os.mkdir(os.path.join(root, 'systmp'))
+            tempfile.tempdir = os.path.join(root, 'systmp')
+        st = DiskStorage(os.path.join(root, 'env'), os.path.join(root, 'meta'), None if case.get('default_tmp') else os.path.join(root, 'tmp'))
 
         def do(n, op):
             gevent.getcurrent().verif_op = n
@@ -401,6 +409,7 @@ def run_case(case, model):
             n = grp[-1] + 1
     finally:
         uninstall(saved)
+        tempfile.tempdir = saved_tempdir
         shutil.rmtree(root, ignore_errors=True)
     # ---- chunk counts per op, for the model
     per_op = {}
@@ -481,7 +490,7 @@ def run_case(case, model):
         after = copy.deepcopy(state)
         for prog, files in g['snaps']:
             evaluated += 1
-            got, problems = reopen(files)
+            got, problems = reopen(files, case.get('default_tmp', False))
             gotk = {rev.get(sid, sid): v for sid, v in got.items()}
             # correspondence: per in-progress op, recover(id) of the model at this prefix
             for k in g['grp']:
@@ -523,6 +532,6 @@ def run_case(case, model):
         mismatch = {'op': 'storage op raised', 'errors': errors[:3]}
     if unmodelled and mismatch is None:
         mismatch = {'op': 'disk trace', 'impl': 'file-system effects the model does not have: %r' % unmodelled[:3], 'model': 'every write goes create / append* / rename'}
-    tags = ['concurrent' if case['concurrent'] else 'sequential', 'ops=%d' % len(ops), 'snapshots<=30' if evaluated <= 30 else 'snapshots<=60' if evaluated <= 60 else 'snapshots>60']
+    tags = ['concurrent' if case['concurrent'] else 'sequential', 'tmp_dir=default' if case.get('default_tmp') else 'tmp_dir=given', 'ops=%d' % len(ops), 'snapshots<=30' if evaluated <= 30 else 'snapshots<=60' if evaluated <= 60 else 'snapshots>60']
     res = CaseResult(mismatch, hits, (repr(ops), case['concurrent']), tags)
     return res
